@@ -181,6 +181,14 @@ class P:
         for proto in ("ipfix", "sflow"):
             line = self.case(proto, gens.get(proto), rng, repeat_to=1150, force_mirror=True)
             out.append(line)
+        # workers RETIRED before the datagrams arrive (their quit channel is closed while they wait for work, as the dynamic
+        # scaling does after a burst): the remaining workers process everything; a retired worker must not take a datagram with it
+        for proto in ("ipfix", "nf9", "nf5", "sflow"):
+            line = self.case(proto, gens.get(proto), rng)
+            c = self.cj[line]
+            c["workers"], c["retire"], c["procs"] = 4, rng.choice([1, 2, 3]), 0
+            self.nworkers[line] = 4
+            out.append(line)
         return out
 
     def extra(self, tier, rng, known):
